@@ -1,6 +1,7 @@
 import EzdxfVerif.Model.Storage
+import EzdxfVerif.Model.StorageDoc
 import Drivers.Proto
-open EzdxfVerif EzdxfVerif.XTags EzdxfVerif.Storage Proto
+open EzdxfVerif EzdxfVerif.XTags EzdxfVerif.Storage EzdxfVerif.StorageDoc Proto
 
 /-  line protocol of property C02
     tags     code:cps;code:cps;…        (cps = space separated code points)
@@ -12,7 +13,21 @@ open EzdxfVerif EzdxfVerif.XTags EzdxfVerif.Storage Proto
     custom|name:value;…       -> tag:value;…               (HeaderSection custom property stack)
     written|r2004|name;name;…|tag:value;… -> name:value;…  (where HeaderSection.export_dxf puts them; r2004 = 1 for DXF R2004+)
     xrec|alive,…|tags         -> ok tags | err kind        (XRECORD: load -> export)
-    classes|name:cpp;…        -> name:cpp;…                (ClassesSection.register) -/
+    classes|name:cpp;…        -> name:cpp;…                (ClassesSection.register)
+    ents|msp|psp|alive,…|records -> ok tags | err kind     (ENTITIES: linker, layout distribution, export; an implemented record is
+                                                            answered as (0,type),(5,handle), linked sub-records as nothing)
+    objs|alive,…|records      -> ok tags | err kind        (OBJECTS)
+    blocks|alive,…|key,key,…|records -> ok tags | err kind (BLOCKS: definitions in the order of the BLOCK_RECORD table keys)
+    file|ver|msp|psp|alive,…|key,…|records -> ok tags | err kind (whole file, ver = 1027 for AC1027; TABLES answered as (0,TABLES))
+    class|r2004|tags          -> ok tags | none            (DXFClass load -> export)
+    clsec|r2004|records       -> ok tags | none            (ClassesSection load -> export, no required classes)
+    hdr|ver|vertext|name:value;… -> name:value;…           (HeaderSection load -> export as groups)
+    hsec|ver|tags             -> ok tags | none            (HEADER section at tag level: validator, groups, export; tags behind (2, HEADER))
+    proxy|alive,…|tags        -> ok tags | err kind        (ACADProxyEntity; the AcDbEntity subclass is echoed)
+    generic|alive,…|tags      -> ok base tags#xdata tags | err kind (DXFEntity.export_base_class / export_xdata of an implemented class)
+    thead|alive,…|count|tags  -> ok tags | err kind        (TableHead load -> export, R2000+)
+    dict|tags                 -> ok tags                   (Dictionary.load_dict -> export_dict; tags of the AcDbDictionary subclass)
+    acds|records              -> ok tags | none            (AcDsDataSection; first record = section head) -/
 
 def natDigits (n : Nat) : List Nat := (toString n).toList.map Char.toNat
 
@@ -57,7 +72,127 @@ def showSErr : SErr → String
 
 def b01 (b : Bool) : String := if b then "1" else "0"
 
+def parseRecs (r : String) : Option (List Rec) :=
+  if r.isEmpty then some [] else (r.splitOn "/").mapM parseTags
+
+def firstVal (code : Nat) (r : Rec) : Option V := (r.find? (fun t => t.code == code)).map (·.val)
+
+def strOf (s : String) : List Nat := s.toList.map Char.toNat
+
+/-- the stand-in for the implemented classes: type and handle; sub-entities are written by their parent -/
+def stubKnown (r : Rec) (_ : List Rec) : List Tag :=
+  if recType r == .str (strOf "ATTRIB") || recType r == .str (strOf "VERTEX") || recType r == .str (strOf "SEQEND") then []
+  else [⟨0, recType r⟩, ⟨5, (firstVal 5 r).getD (.str [])⟩]
+
+def stubCfg (msp psp : V) (al : List V) : DocCfg :=
+  { alive := fun v => al.contains v
+    known := stubKnown
+    knownPsp := fun r =>
+      if firstVal 330 r == some msp then false else if firstVal 330 r == some psp then true
+      else match firstVal 67 r with | some v => v != .str [48] | none => false
+    attribsFollow := fun r => match firstVal 66 r with | some v => v != .str [48] | none => false
+    msp := msp, psp := psp }
+
+def showDErr : DErr → String
+  | .ent e => showErr e
+  | .link => "link"
+  | .struct e => showSErr e
+  | .classes => "classes"
+  | .acds => "acds"
+  | .header => "header"
+
+def showDRes : Except DErr (List Tag) → String
+  | .ok ts => "ok " ++ showTags ts
+  | .error e => "err " ++ showDErr e
+
+def showOpt : Option (List Tag) → String
+  | some ts => "ok " ++ showTags ts
+  | none => "none"
+
+open EzdxfVerif.Gen.StorageTables in
+def stubSection : SectionPart → List Tag
+  | .tables => [⟨0, .str (strOf "TABLES")⟩]
+  | _ => []
+
+def step2 (line : String) : Option String :=
+  match line.splitOn "|" with
+  | ["ents", m, p, a, r] =>
+    (match parseNats m, parseNats p, parseAlive a, parseRecs r with
+     | some m, some p, some al, some recs => some (showDRes (entitiesPass (stubCfg (.str m) (.str p) al) recs))
+     | _, _, _, _ => some "bad-op")
+  | ["objs", a, r] =>
+    (match parseAlive a, parseRecs r with
+     | some al, some recs => some (showDRes (objectsPass (stubCfg (.str []) (.str []) al) recs []))
+     | _, _ => some "bad-op")
+  | ["blocks", a, o, r] =>
+    (match parseAlive a, parseAlive o, parseRecs r with
+     | some al, some order, some recs =>
+       let bc : BlockCfg := { key := fun r => firstVal 2 r,
+                              layoutBlock := fun n => n == .str (strOf "*Model_Space") || n == .str (strOf "*Paper_Space") }
+       some (showDRes (blocksPass (stubCfg (.str []) (.str []) al) bc order (fun n => [⟨0, .str (strOf "ORPHAN")⟩, ⟨2, n⟩]) recs))
+     | _, _, _ => some "bad-op")
+  | ["file", v, m, p, a, o, r] =>
+    (match v.toNat?, parseNats m, parseNats p, parseAlive a, parseAlive o, parseRecs r with
+     | some ver, some m, some p, some al, some order, some recs =>
+       let bc : BlockCfg := { key := fun r => firstVal 2 r,
+                              layoutBlock := fun n => n == .str (strOf "*Model_Space") || n == .str (strOf "*Paper_Space") }
+       some (showDRes (loadSaveFile (stubCfg (.str m) (.str p) al) bc order (fun n => [⟨0, .str (strOf "ORPHAN")⟩, ⟨2, n⟩])
+         ver (.str (strOf ("AC" ++ toString ver))) [] stubSection [] recs))
+     | _, _, _, _, _, _ => some "bad-op")
+  | ["class", v, t] =>
+    (match parseTags t with
+     | some ts => some (showOpt ((classLoad ts).map (classExport (v == "1"))))
+     | none => some "bad-op")
+  | ["clsec", v, r] =>
+    (match parseRecs r with
+     | some recs => some (showOpt (classesPass (v == "1") recs []))
+     | none => some "bad-op")
+  | ["hdr", ver, vt, g] =>
+    (match ver.toNat?, parseNats vt, parsePairs g with
+     | some ver, some vt, some gs => some (showPairs (headerPass ver (.str vt) gs))
+     | _, _, _ => some "bad-op")
+  | ["hsec", ver, t] =>
+    (match ver.toNat?, parseTags t with
+     | some ver, some ts => some (showOpt (headerSectionPass ver (.str (strOf ("AC" ++ toString ver))) ts))
+     | _, _ => some "bad-op")
+  | ["proxy", a, t] =>
+    (match parseAlive a, parseTags t with
+     | some al, some ts =>
+       (match load ts with
+        | .error e => some ("err " ++ showErr e)
+        | .ok e => some (showRes (exportProxy (fun v => al.contains v) (e.subs.headD []) e)))
+     | _, _ => some "bad-op")
+  | ["generic", a, t] =>
+    (match parseAlive a, parseTags t with
+     | some al, some ts =>
+       (match load ts with
+        | .error e => some ("err " ++ showErr e)
+        | .ok e => (match reactorsPart e.reactors with
+          | .error x => some ("err " ++ showErr x)
+          | .ok re => some ("ok " ++ showTags (baseOut (fun v => al.contains v) e re) ++ "#" ++ showTags (xdataOut e))))
+     | _, _ => some "bad-op")
+  | ["thead", a, c, t] =>
+    (match parseAlive a, parseNats c, parseTags t with
+     | some al, some cnt, some ts =>
+       (match load ts, tableName ts with
+        | .error e, _ => some ("err " ++ showErr e)
+        | .ok _, none => some "err noName"
+        | .ok e, some n => some (showRes (exportTableHead (fun v => al.contains v) (.str cnt) n e)))
+     | _, _, _ => some "bad-op")
+  | ["dict", t] =>
+    (match parseTags t with
+     | some ts => some ("ok " ++ showTags (dictExport (dictLoad ts)))
+     | none => some "bad-op")
+  | ["acds", r] =>
+    (match parseRecs r with
+     | some (head :: recs) => some (showOpt (acdsPass head recs))
+     | _ => some "bad-op")
+  | _ => none
+
 def step (line : String) : String :=
+  match step2 line with
+  | some s => s
+  | none =>
   match line.splitOn "|" with
   | ["rt", a, t] =>
     (match parseAlive a, parseTags t with
